@@ -809,8 +809,10 @@ func (it *Interp) step(i int, op *Op) {
 			switch op.N {
 			case 0:
 				e.BatchNonce++
-			case 1, 2:
+			case 1:
 				e.FeePayer = sim.ExtUser(2).Hex()
+			case 2:
+				e.FeePayer = "not-an-address" // (the fee payer is not validated and not part of the claim id)
 			case 3, 4:
 				e.FeePaid = e.FeePaid.MulRaw(1000).AddRaw(1)
 			case 6:
@@ -958,6 +960,19 @@ func (it *Interp) step(i int, op *Op) {
 		}
 		paid := []string{"1", op.F, new(big.Int).Mul(fee, big.NewInt(1000)).String()}[op.U%3]
 		for _, o := range []Op{{K: "block", T: op.T}, {K: "reqbatch", C: dst, D: op.D}, {K: "block", T: op.T}, {K: "exec", C: dst, A: paid}, {K: "block", T: op.T}} {
+			if it.Failed() {
+				break
+			}
+			o := o
+			it.step(i, &o)
+		}
+
+	case "xbyzexec":
+		// macro: the external chain executes a batch; the Byzantine validator is the first to report it, with one
+		// of the fields the claim id does not cover changed (fee payer, fee paid), the honest validators follow;
+		// then the external clock passes every timeout and that is observed, and time passes on the hub
+		for _, o := range []Op{{K: "exec", C: op.C, R: op.R, A: op.A, T: 1}, {K: "byz", C: op.C, N: 1 + op.N%4}, {K: "relay", C: op.C, N: 100, R: 1},
+			{K: "block", T: 5}, {K: "tick", C: op.C, N: 100000}, {K: "hb", C: op.C}, {K: "block", T: 5}, {K: "block", T: op.T}, {K: "block", T: 5}} {
 			if it.Failed() {
 				break
 			}
